@@ -408,6 +408,18 @@ class SimKernel:
         """every process ever spawned by the daemon: pid -> P"""
         return {p.pid: p for p in self.procs.values() if p.spawn_no}
 
+    def killpg(self, pgid, sig):
+        leader = self.procs.get(pgid)
+        members = ([pgid] if leader is not None and leader.state != 'gone' else []) + \
+            sorted(d for d in self.descendants(pgid) if self.procs[d].state != 'gone')
+        if not members:
+            raise ProcessLookupError(errno.ESRCH, 'No such process')
+        for m in members:
+            try:
+                self.kill(m, sig)
+            except ProcessLookupError:
+                pass
+
     def descendants(self, pid):
         out, stack = set(), [pid]
         while stack:
@@ -417,6 +429,20 @@ class SimKernel:
                     out.add(c.pid)
                     stack.append(c.pid)
         return out
+
+
+class ProcOs:
+    """stand-in for `os` inside circus.process: signals sent with os.kill / os.killpg go to the simulated kernel (a
+    worker is the leader of its own process group, its descendants are the members)"""
+
+    def kill(self, pid, sig):
+        return _CUR.kernel.kill(pid, sig)
+
+    def killpg(self, pgid, sig):
+        return _CUR.kernel.killpg(pgid, sig)
+
+    def __getattr__(self, n):
+        return getattr(os, n)
 
 
 class RedirOs:
@@ -718,6 +744,7 @@ def install():
     circus.arbiter.os = simos
     circus.controller.os = simos
     circus.process.Popen = SimPopen
+    circus.process.os = ProcOs()
     import circus.stream.redirector
     circus.stream.redirector.os = RedirOs()
     circus.controller.zmqstream = types.SimpleNamespace(ZMQStream=FakeStream)
